@@ -72,6 +72,11 @@ def probe(cfg, rng, ctx, partial):
         if all(mask):
             mask[int(rng.integers(nout))] = False
     w = [_seed_for(rng, cfg, y0[j], j) if mask[j] else None for j in range(nout)]
+    if rng.random() < 0.25:
+        # seeds of any magnitude (objective weights, unit conversions): the adjoint identity is homogeneous in w
+        k = 10.0 ** rng.uniform(-12, 6)
+        w = [None if wj is None else wj * k for wj in w]
+        ctx.count("probes_with_scaled_seed")
     for s, wj in zip(mod.sig_out, w):
         s.sensitivity = _copy(wj)
     try:
